@@ -53,6 +53,11 @@ def gen_cases(tier):
                     for rev in (False, True):
                         yield {"poly": rp.jdict(D), "type": typ, "scheme": QUICK_SCHEME[typ], "constraint": 0, "rev": rev}
                     yield {"poly": rp.jdict(D), "type": typ, "scheme": QUICK_SCHEME[typ], "constraint": 0, "rev": False, "perm": 1 if typ == "PUBO" else 2}
+        # one variable spelled with equal labels of different types (1 / True / 1.0): two stored keys can denote one monomial
+        for D in gen.polys(N, 2 if tier == "quick" else 3, (1, -2), minterms=2, need_deg=3):
+            if any(1 in k and 0 in k for k in D):
+                for typ in ("PUBO", "PUSO"):
+                    yield {"poly": rp.jdict(D), "type": typ, "scheme": "int", "constraint": 0, "rev": False, "mix": True}
         for D in gen.polys(N, maxterms, COEFS, minterms=1, need_deg=3):
             nt = len(D)
             for typ in TYPES:
@@ -79,7 +84,17 @@ def build_model(case):
     if case.get("rev"):
         D = dict(reversed(list(D.items())))
     labels = gen.labels_for(case["scheme"], N)
-    M = gen.build(case["type"], D)
+    if case.get("mix"):
+        M = gen.cls(case["type"])()
+        for k, v in D.items():
+            if 1 in k and len(k) >= 2:
+                # the same monomial under two spellings: (True, 0, 2) sorts differently from (0, 1, 2), so both keys are stored
+                M[tuple(True if l == 1 else l for l in k)] += v + 1
+                M[k] += -1
+            else:
+                M[k] += v
+    else:
+        M = gen.build(case["type"], D)
     if case.get("perm"):
         gen.permute_mapping(M, "setmap" if case["perm"] == 1 else "setrev")    # user-chosen enumeration (documented API)
     con = case["constraint"]
@@ -273,5 +288,5 @@ def run(ctx):
 
 def replay(case):
     st = Stats()
-    check({k: case.get(k) for k in ("poly", "type", "scheme", "constraint", "rev", "perm")}, st)
+    check({k: case.get(k) for k in ("poly", "type", "scheme", "constraint", "rev", "perm", "mix")}, st)
     return [(s, m) for s, c, m in st.viol]
